@@ -2929,9 +2929,10 @@ fn gen_c02(r: &mut Rng, seed: u64) -> Scenario {
                     }
                 }
                 let start = 0x6900_0000_0000u64;
+                let len: u64 = 64 << 30;
                 if let Some(o) = ph_dyn {
                     if !sc.world.regions.iter().any(|g| g.start < start + (64 << 30) && start < g.end()) {
-                        sc.world.regions.push(RegionSpec { start, len: 64 << 30, perms: "rw-p".into(), offset: 0, inode: 0, name: B(Vec::new()), deleted: false, content: Content::Pattern(r.next()) });
+                        sc.world.regions.push(RegionSpec { start, len, perms: "rw-p".into(), offset: 0, inode: 0, name: B(Vec::new()), deleted: false, content: Content::Pattern(r.next()) });
                         sc.world.regions.sort_by_key(|g| g.start);
                         sc.world.plants.push((EXE_BASE + o + 16, start - EXE_BASE));
                         push_tags(&mut tags, &["h:dynamic-without-end"]);
@@ -2965,6 +2966,15 @@ fn gen_c02(r: &mut Rng, seed: u64) -> Scenario {
     // to PATH_MAX bytes: word by word through ptrace that is bounded, but by more calls than the default budget
     if tags.iter().any(|t| t == "h:link-map") {
         sc.sched.max_calls = 12_000_000;
+    }
+    // When every remote read is forced through PTRACE_PEEKDATA, one word per call, a segment that a
+    // hostile header field declares gigabytes long and that lies in the vast region of "h:dynamic-without-end"
+    // is read for hundreds of millions of calls: bounded by the memory that is there, but far beyond what
+    // a run's call budget can tell from a loop. The vast region is kept for the other read strategies.
+    if tags.iter().any(|t| t == "reader:peekdata") {
+        if let Some(g) = sc.world.regions.iter_mut().find(|g| g.start == 0x6900_0000_0000 && g.len == 64 << 30) {
+            g.len = 1 << 20;
+        }
     }
     // an unlimited stop timeout is a request to wait for as long as the stop takes: keep it for worlds
     // where the stop does arrive (a zombie leader never shows state T, a late stopper needs its time)
